@@ -61,7 +61,7 @@ ASSUMPTIONS = [
 ]
 BOUNDS = {
     "quick": {"histories": 1920, "max_steps": 20, "churn_cases": 64, "churn_max_steps": 400},
-    "thorough": {"histories": 16000, "max_steps": 20, "churn_cases": 480, "churn_max_steps": 400},
+    "thorough": {"histories": 50000, "max_steps": 20, "churn_cases": 1440, "churn_max_steps": 400},
 }
 
 PREFIX = "/components/cache/"
